@@ -36,10 +36,12 @@ Import ListNotations.
 Module RM := RegistryModel.
 Module RP := RegistryProofs.
 
-(* C17's model has the pinned threshold rule (new_mitems: nitems + nitems/2 + 1): the life-cycle
-   machine is instantiated with the same rule, Lifecycle.mitems_rule *)
-Notation finF := (finalise mitems_rule true true true).
-Notation finT := (fin_top mitems_rule true true true).
+(* C17's model takes the collection threshold rule from the source (Generated.gc_reg_mitems_rule, used by
+   RM.new_mitems); the life-cycle machine is instantiated with the same function, whatever it is — no
+   lemma below looks inside it *)
+Definition c17_rule (n : nat) : nat := gc_reg_mitems_rule n.
+Notation finF := (finalise c17_rule true true true).
+Notation finT := (fin_top c17_rule true true true).
 
 Local Notation gentry := RM.gentry.
 Local Notation gslot := (slot RM.gentry).
@@ -192,10 +194,10 @@ Lemma Keep_NS s s' : Keep s s' -> NS s -> NS s'.
 Proof. intros [_ [H _]] N x. rewrite H. apply N. Qed.
 
 Lemma keep_gc_rem r fin s p :
-  (forall s o, NS s -> Keep s (fin s o)) -> NS s -> Keep s (gc_rem mitems_rule r fin s p).
+  (forall s o, NS s -> Keep s (fin s o)) -> NS s -> Keep s (gc_rem c17_rule r fin s p).
 Proof.
   intros Hf N. unfold gc_rem. destruct (negb (running s)); [apply Keep_refl|].
-  assert (Hm : forall t, Keep s t -> Keep s (set_mitems (mitems_rule (nitems t)) t)) by (intros t K; exact K).
+  assert (Hm : forall t, Keep s t -> Keep s (set_mitems (c17_rule (nitems t)) t)) by (intros t K; exact K).
   apply Hm.
   destruct (in_pend s p).
   - destruct r.
@@ -206,12 +208,12 @@ Proof.
     apply (Keep_trans s (set_reg (rem_reg p (reg s)) s)); [repeat split | apply Hf; exact N].
 Qed.
 
-Lemma keep_finalise r w dd f : forall s o, NS s -> Keep s (finalise mitems_rule r w dd f s o).
+Lemma keep_finalise r w dd f : forall s o, NS s -> Keep s (finalise c17_rule r w dd f s o).
 Proof.
   induction f as [|f IH]; intros s o N; cbn [finalise]; [repeat split|].
   change (spawns (add_log (LFin o) s) o) with (spawns s o). rewrite (N o). simpl fold_left.
   destruct (owned (add_log (LFin o) s) o) as [p|]; [|repeat split].
-  assert (K : Keep s (gc_rem mitems_rule r (finalise mitems_rule r w dd f) (add_log (LFin o) s) p)).
+  assert (K : Keep s (gc_rem c17_rule r (finalise c17_rule r w dd f) (add_log (LFin o) s) p)).
   { apply (Keep_trans s (add_log (LFin o) s)); [repeat split|]. apply keep_gc_rem; [exact IH | exact N]. }
   exact K.
 Qed.
@@ -227,7 +229,7 @@ Proof.
   apply (Keep_trans s (fin s0 o)); [exact K1|]. apply IH. apply (Keep_NS s); assumption.
 Qed.
 
-Lemma keep_sweep w fin order marks s : (forall s o, NS s -> Keep s (fin s o)) -> NS s -> Keep s (sweep mitems_rule w fin order marks s).
+Lemma keep_sweep w fin order marks s : (forall s o, NS s -> Keep s (fin s o)) -> NS s -> Keep s (sweep c17_rule w fin order marks s).
 Proof.
   intros Hf N. unfold sweep.
   match goal with |- Keep s (set_pend [] (sweep_loop w fin ?k 0 ?s1)) =>
@@ -235,7 +237,7 @@ Proof.
   exact K.
 Qed.
 
-Lemma keep_fin_top s o : NS s -> Keep s (fin_top mitems_rule true true true s o).
+Lemma keep_fin_top s o : NS s -> Keep s (fin_top c17_rule true true true s o).
 Proof. intros N. unfold fin_top. apply keep_finalise. exact N. Qed.
 
 
@@ -428,19 +430,19 @@ Section Glue.
   Lemma sim_rem_tail A g1 s1 g' :
     Tab g1 -> Rel g1 s1 -> GInv A s1 ->
     match Cless g1 with None => None | Some g2 => Some (RM.new_mitems g2) end = Some g' ->
-    Tab g' /\ Rel g' (set_mitems (mitems_rule (nitems s1)) s1) /\ Mono g1 g'.
+    Tab g' /\ Rel g' (set_mitems (c17_rule (nitems s1)) s1) /\ Mono g1 g'.
   Proof.
     intros T R G H. destruct (tab_resize_less g1 T) as [l' [Hr [T2 Hh]]]. rewrite Hr in H.
     inversion H; subst g'. clear H. split; [|split; [|apply Mono_same; reflexivity]].
     - apply (tab_fields (RM.set_slots g1 l')); auto.
     - pose proof (rel_len g1 s1 T R (g_reg_nodup _ _ G)) as Hlen.
       assert (R2 : Rel (RM.set_slots g1 l') s1) by (apply (rel_fields g1); auto).
-      constructor; try apply R2. simpl. unfold mitems_rule, nitems. rewrite Hlen. reflexivity.
+      constructor; try apply R2. simpl. unfold c17_rule, nitems. rewrite Hlen. reflexivity.
   Qed.
 
   Lemma sim_rem_step fin n f : FinSim fin n f -> forall A g s p g',
     Tab g -> Rel g s -> GInv A s -> measure s < n ->
-    Crem (S f) g p = Some g' -> Tab g' /\ Rel g' (gc_rem mitems_rule true fin s (idn p)) /\ Mono g g'.
+    Crem (S f) g p = Some g' -> Tab g' /\ Rel g' (gc_rem c17_rule true fin s (idn p)) /\ Mono g g'.
   Proof.
     intros [HF HS] A g s p g' T R G Hm H.
     cbn [RM.gc_rem] in H.
@@ -452,7 +454,7 @@ Section Glue.
     { apply (rel_fields g); try reflexivity; auto; intros x; tauto. }
     match type of H with match ?x with _ => _ end = _ => destruct x as [g1|] eqn:Hap; [|discriminate] end.
     cut (exists s1, Tab g1 /\ Rel g1 s1 /\ GInv A s1 /\ Mono gl g1 /\
-           gc_rem mitems_rule true fin s (idn p) = set_mitems (mitems_rule (nitems s1)) s1).
+           gc_rem c17_rule true fin s (idn p) = set_mitems (c17_rule (nitems s1)) s1).
     { intros [s1 [T1 [R1 [G1 [M1 Heq]]]]]. rewrite Heq.
       destruct (sim_rem_tail A g1 s1 g' T1 R1 G1 H) as (Ta & Ra & Ma).
       split; [exact Ta|]. split; [exact Ra|].
@@ -472,7 +474,7 @@ Section Glue.
       destruct (RM.is_pending p (RM.pending g)) eqn:Hhit; simpl andb in Hap; cbv iota in Hap.
       + (* found in the pending list of the running sweep: finalised from there *)
         assert (Hin : In (idn p) (pids s)) by (apply in_pend_spec; rewrite (rel_in_pend g s p R); exact Hhit).
-        destruct (null_pend_ok mitems_rule A s (idn p) G Hin) as (G1 & N1 & N2 & F0 & M1 & R1 & I1 & D1 & T1 & B1 & O1 & L1 & Rg1 & P1 & K1).
+        destruct (null_pend_ok c17_rule A s (idn p) G Hin) as (G1 & N1 & N2 & F0 & M1 & R1 & I1 & D1 & T1 & B1 & O1 & L1 & Rg1 & P1 & K1).
         set (s' := set_pend (null_pend (idn p) (pend s)) s) in *.
         assert (T0 : Tab g0).
         { apply (tab_fields gl); auto. intros Hpe. simpl in Hpe. simpl. change (RM.pending gl) with (RM.pending g) in Hpe. rewrite Hpe. reflexivity. }
@@ -511,7 +513,7 @@ Section Glue.
           { apply in_reg_spec. apply (rel_in_reg g s p R). exists (RM.root e), e. split; [exists i, (RM.home hashf p (length (RM.slots g))); exact Hat | auto]. }
           assert (Hir : in_reg s (idn p) = true) by (apply in_reg_spec; exact Hreg).
           rewrite Hir.
-          destruct (rem_reg_ok mitems_rule A s (idn p) G Hreg) as (G1 & N1 & N2 & F0 & M1 & R1 & I1 & D1 & T1 & B1 & O1 & L1 & Pd1 & Rg1 & K1).
+          destruct (rem_reg_ok c17_rule A s (idn p) G Hreg) as (G1 & N1 & N2 & F0 & M1 & R1 & I1 & D1 & T1 & B1 & O1 & L1 & Pd1 & Rg1 & K1).
           set (s' := set_reg (rem_reg (idn p) (reg s)) s) in *.
           assert (Td : Tab gd).
           { constructor; simpl.
@@ -576,7 +578,7 @@ Section Glue.
      of fuels (C17's nesting fuel f, the life-cycle machine's fuel fm) *)
   Lemma sim_fin : forall f fm, FinSim (finF fm) fm f.
   Proof.
-    induction f as [|f IH]; intros fm; (split; [apply (finalise_ok mitems_rule)|]);
+    induction f as [|f IH]; intros fm; (split; [apply (finalise_ok c17_rule)|]);
       intros A g s q g' T R G Hr Hp Hf Hinfo Hm H; (destruct fm as [|fm']; [lia|]);
       rewrite cfinw_eq in H; cbn [finalise].
     all: destruct (add_fin_ok A s (idn q) G Hr Hp Hf Hinfo) as (G1 & E1 & M1).
@@ -597,14 +599,14 @@ Section Glue.
         destruct (sim_rem_step (finF fm') fm' f (IH fm') (idn q :: A) gl s1 t g' Tl Rl G1 Hm1 H) as (T2 & R2 & M2).
         split; [exact T2|]. split; [|apply (Mono_trans g gl); [apply (Mono_cons g gl (RM.EvFin q)); reflexivity | exact M2]].
         apply rel_finish; [exact R2|].
-        destruct (LifecycleProofs.gc_rem_ok mitems_rule _ _ (finalise_ok mitems_rule fm') (idn q :: A) s1 (idn t) G1 Hm1) as (G2 & _).
+        destruct (LifecycleProofs.gc_rem_ok c17_rule _ _ (finalise_ok c17_rule fm') (idn q :: A) s1 (idn t) G1 Hm1) as (G2 & _).
         destruct (g_prog _ _ G2 (idn q) (or_introl eq_refl)). lia.
   Qed.
 
   (* the finaliser the events of the life-cycle machine use (fuel computed from the state) *)
   Lemma finsim_top n f : FinSim finT n f.
   Proof.
-    split; [apply (fin_top_ok mitems_rule)|].
+    split; [apply (fin_top_ok c17_rule)|].
     intros A g s q g' T R G Hr Hp Hf Hinfo _ H. unfold fin_top.
     destruct (sim_fin f (fuel_of s)) as [_ HS].
     apply (HS A g s q g' T R G Hr Hp Hf Hinfo); [unfold fuel_of, measure; lia | exact H].
@@ -614,7 +616,7 @@ Section Glue.
      (pending list not empty) — on the concrete table is GC_Rem of the life-cycle machine *)
   Theorem glue_rem : forall f A g s p g',
     Tab g -> Rel g s -> GInv A s ->
-    Crem f g p = Some g' -> Tab g' /\ Rel g' (gc_rem mitems_rule true finT s (idn p)) /\ Mono g g'.
+    Crem f g p = Some g' -> Tab g' /\ Rel g' (gc_rem c17_rule true finT s (idn p)) /\ Mono g g'.
   Proof.
     intros [|f] A g s p g' T R G H; [discriminate|].
     apply (sim_rem_step finT (S (measure s)) f (finsim_top _ f) A g s p g' T R G); [lia | exact H].
@@ -645,7 +647,7 @@ Section Glue.
       destruct (nth k (RM.pending g) None) as [q|] eqn:Hn; simpl option_map; cbv iota.
       + assert (Hn' : nth k (pend s) None = Some (idn q)) by (rewrite (rel_pend g s R), abs_pend_nth, Hn; reflexivity).
         assert (Hin : In (idn q) (pids s)) by (eapply nth_in_somes; exact Hn').
-        destruct (null_pend_ok mitems_rule A s (idn q) G Hin) as (G1 & N1 & N2 & F0 & M1 & R1 & I1 & D1 & T1 & B1 & O1 & L1 & Rg1 & P1 & K1).
+        destruct (null_pend_ok c17_rule A s (idn q) G Hin) as (G1 & N1 & N2 & F0 & M1 & R1 & I1 & D1 & T1 & B1 & O1 & L1 & Rg1 & P1 & K1).
         rewrite <- (rel_pend g s R).
         set (s0 := set_pend (null_pend (idn q) (pend s)) s) in *.
         set (g1 := RM.set_pending g (RM.upd_opt k (RM.pending g))) in *.
@@ -692,7 +694,7 @@ Section Glue.
   Theorem glue_sweep : forall A g s g',
     TabM g -> RM.pending g = [] -> Rel g s -> GInv A s ->
     Csweep g = Some g' ->
-    Tab g' /\ Rel g' (sweep mitems_rule true finT (c_order g) (c_marks g) s) /\ RM.pending g' = [] /\ Mono g g'.
+    Tab g' /\ Rel g' (sweep c17_rule true finT (c_order g) (c_marks g) s) /\ RM.pending g' = [] /\ Mono g g'.
   Proof.
     intros A g s g' TM Hq R G H.
     pose proof (tm_core g TM) as Hc.
@@ -829,16 +831,16 @@ Section Glue.
     destruct (tab_resize_less g1 T1) as [l2 [Hr2 [T2 Hh2]]]. rewrite Hr2 in H.
     set (g2 := RM.new_mitems (RM.set_slots g1 l2)) in *.
     assert (T2' : Tab g2) by (apply (tab_fields (RM.set_slots g1 l2)); auto).
-    assert (R2 : Rel g2 (set_mitems (mitems_rule (length r')) s1)).
+    assert (R2 : Rel g2 (set_mitems (c17_rule (length r')) s1)).
     { assert (R2a : Rel (RM.set_slots g1 l2) s1) by (apply (rel_fields g1); auto).
       pose proof (rel_len (RM.set_slots g1 l2) s1 T2 R2a (g_reg_nodup _ _ G1)) as Hl.
-      constructor; try apply R2a. simpl. unfold mitems_rule. change (reg s1) with r' in Hl. rewrite Hl. reflexivity. }
-    assert (G2 : GInv A (set_mitems (mitems_rule (length r')) s1)) by (constructor; apply G1).
+      constructor; try apply R2a. simpl. unfold c17_rule. change (reg s1) with r' in Hl. rewrite Hl. reflexivity. }
+    assert (G2 : GInv A (set_mitems (c17_rule (length r')) s1)) by (constructor; apply G1).
     destruct (Cfinloop (length (RP.pend_of rm)) 0 (RM.depth g) g2) as [g3|] eqn:Hfl; [|discriminate].
     inversion H; subst g'. clear H.
     assert (Hlp : length (RP.pend_of rm) = length order) by (unfold RP.pend_of, order; rewrite !map_length; reflexivity).
     rewrite Hlp in Hfl.
-    set (s1m := set_mitems (mitems_rule (length r')) s1) in *.
+    set (s1m := set_mitems (c17_rule (length r')) s1) in *.
     destruct (sim_fin_loop finT (S (measure s1m)) (RM.depth g) (finsim_top _ _) (length order) 0 A g2 s1m g3 T2' R2 G2 ltac:(lia) Hfl)
       as (T3 & R3 & Mo3).
     split; [|split; [|split; [reflexivity|]]].
@@ -857,7 +859,7 @@ Section Glue.
   (* mark phase on the concrete table, then the life-cycle machine's sweep with what it left *)
   Definition csweep_after_mark (g : RM.gc) (ws : list N) (s : st) : st :=
     match RM.gc_mark hashf g ws with
-    | Some (Some gm) => sweep mitems_rule true finT (c_order gm) (c_marks gm) s
+    | Some (Some gm) => sweep c17_rule true finT (c_order gm) (c_marks gm) s
     | _ => s
     end.
 
@@ -872,10 +874,10 @@ Section Glue.
       if mitems s2 <? nitems s2
       then csweep_after_mark (fst (Creg g p r (RM.EvAlloc p r))) ws s2
       else s2
-    | RM.ORem p => gc_rem mitems_rule true finT s (idn p)
+    | RM.ORem p => gc_rem c17_rule true finT s (idn p)
     | RM.OFinRaw p => finT (add_obj (idn p) KRaw false s) (idn p)
     | RM.OCollect ws => csweep_after_mark g ws s
-    | RM.OSweep => sweep mitems_rule true finT (c_order g) (c_marks g) s
+    | RM.OSweep => sweep c17_rule true finT (c_order g) (c_marks g) s
     | RM.OStop => set_running false s
     | RM.OStart => set_running true s
     | RM.OMem _ => s
@@ -999,7 +1001,7 @@ Section Glue.
     destruct (glue_sweep [] gm s g2 TMm Hqm Rm G Hsw) as (_ & R2 & _ & Mo2).
     split; [exact R2|]. split; [|split; [|apply (Mono_trans g gm); [apply Mono_same; apply Hsr | exact Mo2]]].
     - assert (Hpe : pend s = []) by (rewrite (rel_pend g s R), Hq; reflexivity).
-      destruct (LifecycleProofs.sweep_ok mitems_rule finT (S (measure s)) (fin_top_ok mitems_rule _) (c_order gm) (c_marks gm) [] s G Hpe ltac:(lia)) as (G' & _).
+      destruct (LifecycleProofs.sweep_ok c17_rule finT (S (measure s)) (fin_top_ok c17_rule _) (c_order gm) (c_marks gm) [] s G Hpe ltac:(lia)) as (G' & _).
       exact G'.
     - apply keep_sweep; [intros; apply keep_fin_top; assumption | apply (rel_ns g); exact R].
   Qed.
@@ -1088,7 +1090,7 @@ Section Glue.
       destruct (Crem (RM.depth g) g p) as [g1|] eqn:Hrem; [|inversion Hs; subst; congruence].
       inversion Hs; subst g' out.
       destruct (glue_rem (RM.depth g) [] g s p g1 T R G Hrem) as (_ & R' & Mo').
-      destruct (LifecycleProofs.gc_rem_ok mitems_rule finT (S (measure s)) (fin_top_ok mitems_rule _) [] s (idn p) G ltac:(lia)) as (G' & _).
+      destruct (LifecycleProofs.gc_rem_ok c17_rule finT (S (measure s)) (fin_top_ok c17_rule _) [] s (idn p) G ltac:(lia)) as (G' & _).
       constructor; auto. apply Known_keep; [|exact Mo'].
       apply keep_gc_rem; [intros; apply keep_fin_top; assumption | exact Hns].
     - (* OFinRaw *)
@@ -1104,7 +1106,7 @@ Section Glue.
       assert (Hf0 : fin_count s1 (idn p) = 0) by (apply (g_alloc _ _ G); exact Hinone).
       assert (Hi1 : info s1 (idn p) <> None) by (unfold s1; simpl; rewrite Nat.eqb_refl; discriminate).
       destruct (glue_finalise (RM.depth g) [] g s1 p g1 T R1 G1 Hnr Hnp Hf0 Hi1 Hfin) as (_ & R' & Mo').
-      destruct (fin_top_ok mitems_rule (S (measure s1)) [] s1 (idn p) G1 Hnr Hnp Hf0 Hi1 ltac:(lia)) as (G' & _).
+      destruct (fin_top_ok c17_rule (S (measure s1)) [] s1 (idn p) G1 Hnr Hnp Hf0 Hi1 ltac:(lia)) as (G' & _).
       constructor; auto.
       intros x Hx. destruct (keep_fin_top s1 (idn p) (rel_ns g s1 R1)) as [K1 _]. rewrite K1 in Hx. unfold s1 in Hx. simpl in Hx.
       revert Hx. destruct (Nat.eqb_spec x (idn p)) as [Hxp|Hne]; intros Hx.
@@ -1130,7 +1132,7 @@ Section Glue.
       inversion Hs; subst g' out.
       assert (TM : TabM g) by (constructor; apply T).
       destruct (glue_sweep [] g s g1 TM Hq R G Hsw) as (_ & R' & _ & Mo').
-      destruct (LifecycleProofs.sweep_ok mitems_rule finT (S (measure s)) (fin_top_ok mitems_rule _) (c_order g) (c_marks g) [] s G Hpe ltac:(lia)) as (G' & _).
+      destruct (LifecycleProofs.sweep_ok c17_rule finT (S (measure s)) (fin_top_ok c17_rule _) (c_order g) (c_marks g) [] s G Hpe ltac:(lia)) as (G' & _).
       constructor; auto. apply Known_keep; [|exact Mo'].
       apply keep_sweep; [intros; apply keep_fin_top; assumption | exact Hns].
     - (* OStop *)
@@ -1225,7 +1227,7 @@ Section Glue.
     rewrite Hrun. rewrite <- (rel_fin _ _ (gl_rel _ _ L') p).
     cbn [cstep]. pose proof (GL_Tab g s L) as T. pose proof (gl_rel g s L) as R. pose proof (gl_ginv g s L) as G.
     assert (Hpe : pend s = []) by (rewrite (rel_pend g s R), (gl_quiet g s L); reflexivity).
-    destruct (LifecycleProofs.sweep_ok mitems_rule finT (S (measure s)) (fin_top_ok mitems_rule _) (c_order g) (c_marks g) [] s G Hpe ltac:(lia))
+    destruct (LifecycleProofs.sweep_ok c17_rule finT (S (measure s)) (fin_top_ok c17_rule _) (c_order g) (c_marks g) [] s G Hpe ltac:(lia))
       as (_ & _ & _ & Hdead & _).
     destruct (Hdead (idn p)) as [Hd _]; [| |rewrite (clear_no_marks g (t_clear g T)); intros [] | exact Hd].
     - apply in_reg_spec. apply (rel_in_reg g s p R). exists false. exact Hreg.
@@ -1248,7 +1250,7 @@ Section Glue.
     { unfold RP.Grun, RM.gc_run. rewrite fold_left_app. reflexivity. }
     rewrite Hr. rewrite <- (rel_fin _ _ (gl_rel _ _ L') p). cbn [cstep].
     pose proof (gl_rel g s L) as R. pose proof (gl_ginv g s L) as G.
-    destruct (LifecycleProofs.gc_rem_ok mitems_rule finT (S (measure s)) (fin_top_ok mitems_rule _) [] s (idn p) G ltac:(lia)) as (_ & _ & Hd & _).
+    destruct (LifecycleProofs.gc_rem_ok c17_rule finT (S (measure s)) (fin_top_ok c17_rule _) [] s (idn p) G ltac:(lia)) as (_ & _ & Hd & _).
     destruct Hd as [Hd _]; [rewrite (rel_run g s R); exact Hrun | | exact Hd].
     left. apply in_reg_spec. apply (rel_in_reg g s p R). exists r. exact Hreg.
   Qed.
@@ -1284,14 +1286,14 @@ Qed.
 Theorem glue_sweep_thm : forall hashf d, boxlike d -> forall A g s g',
   TabM hashf g -> RM.pending g = [] -> Rel d g s -> GInv A s ->
   RP.Gsweep hashf d true true g = Some g' ->
-  Tab hashf g' /\ Rel d g' (sweep mitems_rule true (fin_top mitems_rule true true true) (c_order g) (c_marks g) s) /\
+  Tab hashf g' /\ Rel d g' (sweep c17_rule true (fin_top c17_rule true true true) (c_order g) (c_marks g) s) /\
   RM.pending g' = [] /\ Mono g g'.
 Proof. intros hashf d [B N]. exact (glue_sweep hashf d B N). Qed.
 
 Theorem glue_rem_thm : forall hashf d, boxlike d -> forall f A g s p g',
   Tab hashf g -> Rel d g s -> GInv A s ->
   RP.Grem hashf d true f g p = Some g' ->
-  Tab hashf g' /\ Rel d g' (gc_rem mitems_rule true (fin_top mitems_rule true true true) s (idn p)) /\ Mono g g'.
+  Tab hashf g' /\ Rel d g' (gc_rem c17_rule true (fin_top c17_rule true true true) s (idn p)) /\ Mono g g'.
 Proof. intros hashf d [B N]. exact (glue_rem hashf d B N). Qed.
 
 Theorem glue_history_thm : forall hashf d, boxlike d -> RP.dtors_ok d -> forall ops,
